@@ -23,8 +23,9 @@ const (
 // Edge is one link of the ground-truth graph. Role is one of subject, config,
 // layer, blob, manifest.
 type Edge struct {
-	Role string `json:"role"`
-	To   int    `json:"to"`
+	Role  string `json:"role"`
+	To    int    `json:"to"`
+	Title string `json:"title,omitempty"` // org.opencontainers.image.title on the descriptor in the manifest
 }
 
 // NodeSpec describes one node. Kind is blob, foreign, manifest, dmanifest,
@@ -68,6 +69,20 @@ func (g *Graph) NodeOf(d ocispec.Descriptor) int {
 		return ns[0]
 	}
 	return 0
+}
+
+// EdgeDescs returns the successor descriptors of n exactly as its manifest
+// lists them (annotations included).
+func (g *Graph) EdgeDescs(n int) []ocispec.Descriptor {
+	var out []ocispec.Descriptor
+	for _, e := range g.Nodes[n].Edges {
+		d := g.Descs[e.To]
+		if e.Title != "" {
+			d.Annotations = map[string]string{ocispec.AnnotationTitle: e.Title}
+		}
+		out = append(out, d)
+	}
+	return out
 }
 
 // SuccNF returns the distinct non-foreign successor targets of n.
@@ -132,7 +147,11 @@ func Build(nodes []NodeSpec, salt string) (*Graph, error) {
 					panic("edge must point to a lower node")
 				}
 				if e.Role == r {
-					out = append(out, g.Descs[e.To])
+					d := g.Descs[e.To]
+					if e.Title != "" {
+						d.Annotations = map[string]string{ocispec.AnnotationTitle: e.Title}
+					}
+					out = append(out, d)
 				}
 			}
 			return out
@@ -237,6 +256,8 @@ type ShapeOpts struct {
 	Docker   bool // allow docker media types
 	Artifact bool // allow artifact manifests
 	Empty    bool // allow empty blobs
+	Alias    bool // allow the same bytes under two media types
+	Titles   bool // give layer/blob descriptors a title annotation (file store names)
 }
 
 // ShapeFromSucc turns an abstract successor relation (succ[k] ⊆ 1..k-1) into
@@ -274,51 +295,51 @@ func ShapeFromSucc(succ [][]int, rng *rand.Rand, o ShapeOpts) []NodeSpec {
 				ns.Kind = "artifact"
 				ns.Art = "application/vnd.verif.art"
 				for _, t := range blobs {
-					ns.Edges = append(ns.Edges, Edge{"blob", t})
+					ns.Edges = append(ns.Edges, Edge{Role: "blob", To: t})
 				}
 			case o.Docker && pick < 30:
 				ns.Kind = "dmanifest"
-				ns.Edges = append(ns.Edges, Edge{"config", blobs[0]})
+				ns.Edges = append(ns.Edges, Edge{Role: "config", To: blobs[0]})
 				for _, t := range blobs[1:] {
-					ns.Edges = append(ns.Edges, Edge{"layer", t})
+					ns.Edges = append(ns.Edges, Edge{Role: "layer", To: t})
 				}
 			case pick < 40:
 				ns.Kind = "index"
 				for _, t := range blobs {
-					ns.Edges = append(ns.Edges, Edge{"manifest", t})
+					ns.Edges = append(ns.Edges, Edge{Role: "manifest", To: t})
 				}
 			default:
 				ns.Kind = "manifest"
-				ns.Edges = append(ns.Edges, Edge{"config", blobs[0]})
+				ns.Edges = append(ns.Edges, Edge{Role: "config", To: blobs[0]})
 				for _, t := range blobs[1:] {
-					ns.Edges = append(ns.Edges, Edge{"layer", t})
+					ns.Edges = append(ns.Edges, Edge{Role: "layer", To: t})
 				}
 			}
 		case o.Subjects && len(mans) == 1 && len(blobs) >= 1 && pick < 50:
 			// a referrer: image manifest with a subject
 			ns.Kind = "manifest"
 			ns.Art = "application/vnd.verif.sig"
-			ns.Edges = append(ns.Edges, Edge{"subject", mans[0]}, Edge{"config", blobs[0]})
+			ns.Edges = append(ns.Edges, Edge{Role: "subject", To: mans[0]}, Edge{Role: "config", To: blobs[0]})
 			for _, t := range blobs[1:] {
-				ns.Edges = append(ns.Edges, Edge{"layer", t})
+				ns.Edges = append(ns.Edges, Edge{Role: "layer", To: t})
 			}
 		case o.Subjects && o.Artifact && len(mans) == 1 && pick < 60:
 			ns.Kind = "artifact"
 			ns.Art = "application/vnd.verif.sbom"
-			ns.Edges = append(ns.Edges, Edge{"subject", mans[0]})
+			ns.Edges = append(ns.Edges, Edge{Role: "subject", To: mans[0]})
 			for _, t := range blobs {
-				ns.Edges = append(ns.Edges, Edge{"blob", t})
+				ns.Edges = append(ns.Edges, Edge{Role: "blob", To: t})
 			}
 		case o.Docker && pick >= 90:
 			ns.Kind = "dlist"
 			for _, t := range ts {
-				ns.Edges = append(ns.Edges, Edge{"manifest", t})
+				ns.Edges = append(ns.Edges, Edge{Role: "manifest", To: t})
 			}
 		default:
 			ns.Kind = "index"
 			rest := ts
 			if o.Subjects && len(mans) >= 1 && pick%2 == 0 {
-				ns.Edges = append(ns.Edges, Edge{"subject", mans[0]})
+				ns.Edges = append(ns.Edges, Edge{Role: "subject", To: mans[0]})
 				rest = nil
 				for _, t := range ts {
 					if t != mans[0] {
@@ -327,7 +348,7 @@ func ShapeFromSucc(succ [][]int, rng *rand.Rand, o ShapeOpts) []NodeSpec {
 				}
 			}
 			for _, t := range rest {
-				ns.Edges = append(ns.Edges, Edge{"manifest", t})
+				ns.Edges = append(ns.Edges, Edge{Role: "manifest", To: t})
 			}
 		}
 		if o.Dup && rng.Intn(6) == 0 {
@@ -341,13 +362,47 @@ func ShapeFromSucc(succ [][]int, rng *rand.Rand, o ShapeOpts) []NodeSpec {
 		}
 		nodes[k] = ns
 	}
+	if o.Alias {
+		// the same bytes under a second media type: a leaf becomes an alias of an earlier leaf
+		for k := 2; k <= n; k++ {
+			if nodes[k].Kind != "blob" || nodes[k].Empty || rng.Intn(4) != 0 {
+				continue
+			}
+			for j := 1; j < k; j++ {
+				taken := false
+				for i := 1; i < k; i++ {
+					if nodes[i].Alias == j {
+						taken = true // one alias per blob: a second one would be the same descriptor
+					}
+				}
+				if nodes[j].Kind == "blob" && !nodes[j].Empty && nodes[j].Alias == 0 && !taken {
+					nodes[k].Alias = j
+					break
+				}
+			}
+		}
+	}
+	if o.Titles {
+		for k := 1; k <= n; k++ {
+			for i, e := range nodes[k].Edges {
+				if (e.Role == "layer" || e.Role == "blob") && nodes[e.To].Kind == "blob" {
+					nodes[k].Edges[i].Title = fmt.Sprintf("f%d-in-%d.txt", e.To, k)
+				}
+			}
+		}
+	}
 	if o.Foreign {
 		// turn some blobs that are only used as layers into foreign layers
 		for k := 1; k <= n; k++ {
-			if nodes[k].Kind != "blob" || rng.Intn(5) != 0 {
+			if nodes[k].Kind != "blob" || nodes[k].Alias != 0 || rng.Intn(5) != 0 {
 				continue
 			}
 			ok, used := true, false
+			for j := k + 1; j <= n; j++ {
+				if nodes[j].Alias == k {
+					ok = false
+				}
+			}
 			for p := k + 1; p <= n; p++ {
 				for _, e := range nodes[p].Edges {
 					if e.To == k {
